@@ -190,7 +190,7 @@ class FlatGen:
         r = self.r
         if not self.vectors and not self.matrices:
             return self.eq_scalar()
-        style = r.choice(["vec", "vec", "shift", "idxarith", "matcol", "matrow", "der"])
+        style = r.choice(["vec", "vec", "shift", "idxarith", "matcol", "matrow", "der", "reverse", "stride"])
         n = self.vlen
         i = r.choice("ijk")
         if style in ("vec", "der") and self.vectors:
@@ -224,6 +224,26 @@ class FlatGen:
             self.note_ops(g)
             self.m["eqs"].append(("for", i, num(1), None, num(half), body))
             self.tags.add("core:for-index-arithmetic")
+        elif style == "reverse" and len(self.vectors) >= 1:
+            # subscript with slope -1: w[n + 1 - i]
+            v = r.choice(self.vectors)
+            w = r.choice(self.vectors)
+            g = self.gen(i, None)
+            rhs = ("bin", "+", idx(w, ("bin", "-", num(n + 1), var(i))), g.real(r.randint(0, 2)))
+            self.note_ops(g)
+            self.m["eqs"].append(("for", i, num(1), None, num(n), [("eq", idx(v, var(i)), rhs)]))
+            self.tags.add("core:for-reversed-index")
+        elif style == "stride" and self.vectors and n >= 2:
+            # subscript with slope 2: w[2 * i] (and 2*i - 1)
+            v = r.choice(self.vectors)
+            w = r.choice(self.vectors)
+            half = n // 2
+            g = self.gen(i, None)
+            sub = ("bin", "*", num(2), var(i)) if r.random() < 0.6 else ("bin", "-", ("bin", "*", num(2), var(i)), num(1))
+            rhs = ("bin", "*", idx(w, sub), g.real(r.randint(0, 1)))
+            self.note_ops(g)
+            self.m["eqs"].append(("for", i, num(1), None, num(half), [("eq", idx(v, var(i)), rhs)]))
+            self.tags.add("core:for-strided-index")
         elif style == "matcol" and self.matrices:
             a = r.choice(self.matrices)
             g = self.gen(i, n)
@@ -339,8 +359,30 @@ class FlatGen:
         if prot:
             stmts.append(("assign", var("t"), g.real(2)))
             g.reals.append(var("t"))
-        kind = r.choice(["plain", "plain", "if", "for"])
-        for (o, _) in outs:
+        kind = r.choice(["plain", "plain", "if", "for", "for2"])
+        if kind == "for2":
+            # one loop whose statements depend on each other across iterations
+            acc = [o for o, _ in outs]
+            if len(acc) == 1:
+                if not prot:
+                    prot = [("t", [])]
+                    stmts.append(("assign", var("t"), g.real(1)))
+                acc.append("t")
+            a, b = acc[0], acc[1]
+            if not any(st[1] == var(a) for st in stmts):
+                stmts.append(("assign", var(a), g.real(1)))
+            if not any(st[1] == var(b) for st in stmts):
+                stmts.append(("assign", var(b), g.real(1)))
+            body = [("assign", var(a), ("bin", "+", var(a), var(b))),
+                    ("assign", var(b), ("bin", "+", ("bin", "*", num(2), var(b)), var("i")))]
+            if r.random() < 0.5:
+                body.reverse()
+            stmts.append(("fors", "i", num(1), num(r.randint(2, 4)), body))
+            self.tags.add("core:function-for-coupled-statements")
+            outs_done = True
+        else:
+            outs_done = False
+        for (o, _) in ([] if outs_done else outs):
             if kind == "if":
                 stmts.append(("ifs", [(g.boolean(1), [("assign", var(o), g.real(2))])], [("assign", var(o), g.real(2))]))
                 self.tags.add("core:function-if")
